@@ -10,7 +10,7 @@ ret, rc, logs, oa, deps.  Error *kinds* are never compared (class only).
 # quick tier: the history profiles run with TWO generator seeds (a seeded change must not depend on one lucky draw:
 # measured in seeded/ round 8, where unrelated generator changes had moved the draw that showed an earlier seed); the
 # profiles that are mostly exhaustive families (parsers, codec, helpers, activation) run with one
-_FAMILIES = {"parsers", "codec", "helpers", "activation"}
+_FAMILIES = {"parsers", "codec", "helpers", "activation", "mapspec"}
 
 def P(name, quick, thorough, **kw):
     d = dict(name=name, quick=quick, thorough=thorough, seeds_quick=1 if name in _FAMILIES else 2)
@@ -58,7 +58,7 @@ PROPS = {
     # factory built the container (before any schedule change) -> the gas profile (distinct prime costs) runs here too
     "C18": dict(profiles=[P("activation", 4000, 40000), P("gas", 2000, 160000, seeds_quick=2), P("supply", 1000, 40000)],
                 fields=["status", "gas", "diff"], oracle_props=["C18", "C16"]),
-    "C19": dict(profiles=[], fields=["status"],
+    "C19": dict(profiles=[P("mapspec", 1500, 40000)], fields=["status"], strict=True,
                 assumptions=["a data race is an event of the Go memory model no Lean model exhibits (partial): the lock discipline is decided in Lean on regenerated lock facts, races are searched with -race stress"]),
     "C20": dict(profiles=[P("helpers", 8000, 300000)], fields=["status"], strict=True),
 }
